@@ -6,7 +6,7 @@ import PonyVerif.Model.Cascade
   objs    : [{"ent":0,"alive":true,"refs":[[rel,side,null|id],..],"colls":[[rel,side,[ids]],..]},..]
   requests:
     {"op":"run","schema":..,"classes":[[[rel,side],..],..] (optional: `_attrs_` per class id, inherited first),"objs":..,"guard":bool,"deletes":[id,..]}
-       -> {"steps":[{"err":null|"ConstraintError",..,"agree":bool,"nodangling":bool,"objs":[..]}],"db":{..},"fk":bool}
+       -> {"steps":[{"err":null|"ConstraintError",..,"undo_ok":bool,"trail":n,"agree":bool,"nodangling":bool,"objs":[..]}],"db":{..},"fk":bool}
     {"op":"bulk","schema":..,"objs":..,"stmts":[[id,..],..]}     (bulk DELETE statements, one after the other, on the committed image of `objs`)
        -> {"steps":[{"refused":bool,"db":{..},"fk":bool},..]}
     {"op":"linked","pairs":[{"a":{"coll":..,"req":..,"casc":null|bool},"b":{..}},..]} -> {"res":[{"ok":bool,"ca":bool,"cb":bool},..]}
@@ -133,8 +133,16 @@ def handle (j : Json) : Except String Json := do
       let dels ← natsOfJson (← j.getObjVal? "deletes")
       let guard ← argBool j "guard"
       let (s, outs) := dels.foldl (fun (acc : Store × List Json) o =>
-        let (s', e) := deleteTop sch ct guard acc.1 o
+        -- the instrumented procedure (undo list replayed on failure); `C15_undo_exact` proves it equals `deleteTop`
+        let (s', e) := deleteTopT sch ct guard acc.1 o
+        let plain := deleteTop sch ct guard acc.1 o
+        let trailLen := if o < acc.1.n then (match deleteT sch ct guard (fuelOf sch acc.1) [] o ⟨acc.1, []⟩ with
+          | .ok t => t.trail.length
+          | .error (_, t) => t.trail.length) else 0
         (s', Json.mkObj [("err", match e with | none => Json.null | some e => Json.str (errName e)),
+                          ("undo_ok", toJson ((dump sch ct s').compress == (dump sch ct plain.1).compress &&
+                              (e.isNone || (dump sch ct s').compress == (dump sch ct acc.1).compress))),
+                          ("trail", toJson trailLen),
                           ("agree", toJson (checkAgree sch s')), ("nodangling", toJson (checkNoDangling sch s')),
                           ("objs", dump sch ct s')] :: acc.2)) (storeOf objs, [])
       let db := commit sch s
